@@ -306,6 +306,14 @@ func instances(c *Case, ix *index, seg *SegObs, prev *InfoObs, x int) (int, bool
 
 // OracleC06: interrupt points honoured and reported exactly.
 func OracleC06(c *Case, obs *RunObs) *Failure {
+	f := oracleC06(c, obs)
+	if f != nil && obs.ListNote != "" {
+		f.What += " [" + obs.ListNote + "]"
+	}
+	return f
+}
+
+func oracleC06(c *Case, obs *RunObs) *Failure {
 	if obs.CompileErr != "" || obs.Ref == nil {
 		return nil
 	}
